@@ -11,6 +11,15 @@ from .core import Rng
 # property -> stages.  A stage is one engine on one build config with a run budget per tier:
 #   (engine module name, config, quick runs, quick seconds cap, thorough runs, thorough seconds cap, opts)
 PROPS = {
+    'C07': dict(
+        level='exploration',
+        rule=('codecsim: seeded runs of ENC/FAULT/DEC/CAPW/BNSTR/RDSTR ops over a faulty store; every decode of a damaged '
+              'slot must fail or yield bytes the python model accepts (coordinates < p, curve equation over Fp/Fp2/GF(2^m), '
+              'known tag and length) that re-encode identically; distinct = (type, last fault kind, outcome class, length) '
+              'for damaged decodes plus (type, format, generator) for clean round trips'),
+        stages=[
+            ('codecsim', 'A', 12000, 120, 600000, 1500, {}),
+        ]),
     'C08': dict(
         level='fault_enumeration',
         rule=('allocsim: for each drawn (op, curve, input class, seed) the op runs fault-free under two garbage-fill '
